@@ -222,14 +222,14 @@ def err_obs(ex):
     return "E:X:" + type(ex).__name__
 
 
-def obs_typed(lang, text, ninputs, ops, fix=True):
+def obs_typed(lang, text, ninputs, ops, fix=True, apply_fix=True):
     """typed observation of Language.parse (+ Expr.fix); returns (obs, exception | None, expr | None, inputs)"""
     from transforge import expr as E
     I.install_order_hook()
     with SourceNumbering():
         inputs = [E.Source() for _ in range(ninputs)]
         try:
-            e = lang.parse(text, *inputs)
+            e = lang.parse(text, *inputs) if apply_fix else lang.parse(text, *inputs, fix=False)
             if fix:
                 e.fix()
         except AssertionError as ex:
